@@ -28,8 +28,7 @@ def main():
     quick = TIER != 'thorough'
     lemma, st = props.units_for('C02', quick)
     jobs = [('<BDD as PartialEq>::eq on canonical diagrams k=3', bddcore.unit_bdd_eq, (3, {}))]
-    for L in range(0, (6 if quick else 8) + 1):
-        jobs.append(('parse_formula on %d symbolic tokens' % L, parsecore.unit_parser, (L, 2, dict(timeout=250 if quick else 3000))))
+    jobs += parsecore.parser_jobs(quick)[0]
     jobs += tokencore.jobs(quick)
     shapes = list(shapes_one()) + [('fp', ('bin', 'L', 'L')), ('fp', ('cc', ('L', 'L'))), ('q', 1, ('fp', 'L')), ('not', ('cc', ('L', 'L', 'L')))]
     for sh in shapes:
